@@ -108,7 +108,14 @@ func (dr *driver) judge(c core.Case, r core.Result, race bool) {
 			in := cd.Inputs[0]
 			switch {
 			case r.Status == core.Crash:
-				dr.add("crash:"+crashSig(r.Detail), core.Crash, r.Detail+"\ninput: "+in.Describe(600), soloCase(c.ID, in, false, race), in.Size())
+				sig := "crash:" + crashSig(r.Detail)
+				if strings.Contains(r.Detail, "goroutine stack exceeds") && inputNesting(&in) > safeNesting {
+					// unbounded recursion on a deeply nested source: the class of open
+					// finding C04-F36 is structural (nesting depth), not the frame that
+					// happened to overflow; a stack overflow on a shallow source is not covered
+					sig = stackScope
+				}
+				dr.add(sig, core.Crash, r.Detail+"\ninput: "+in.Describe(600), soloCase(c.ID, in, false, race), in.Size())
 				d.T.Eval(1)
 			case !cd.Solo:
 				// decide the hang under the monitor, not by the watchdog
@@ -281,14 +288,27 @@ func (p prop) Drive(d *core.Driver) error {
 		}
 		rest := n - nt
 		mix := bytesgen.Mix{
-			Random:   rest * 15 / 100,
-			Mutant:   rest * 40 / 100,
-			TypeErr:  rest * 8 / 100,
-			MultiT:   rest * 20 / 100,
-			MultiP:   rest * 7 / 100,
-			Verbatim: rest * 10 / 100,
+			Random:     rest * 14 / 100,
+			Mutant:     rest * 36 / 100,
+			TypeErr:    rest * 7 / 100,
+			MultiT:     rest * 17 / 100,
+			MultiP:     rest * 6 / 100,
+			Verbatim:   rest * 9 / 100,
+			TmplSyntax: rest * 10 / 100,
+			Deep:       n * d.N(40, 1500) / total,
+			Amp:        n * d.N(70, 3000) / total,
+			// while the unbounded-recursion finding is open the generator stays below
+			// the depth at which the 64 MiB stacks of the workers overflow
+			MaxDepth: d.N(1500, safeNesting),
 		}
 		inputs := g.Batch(r, mix)
+		if rn == 0 && !d.InScope(stackScope) {
+			// the finding is closed: nest every recursive construct far beyond the
+			// depth that used to overflow the stack
+			for k := 0; k < bytesgen.NestKinds(); k++ {
+				inputs = append(inputs, bytesgen.DeepOf(k, d.N(40000, 400000)))
+			}
+		}
 		inputs = append(inputs, truncs[ti:ti+nt]...)
 		ti += nt
 		if len(inputs) == 0 {
@@ -360,4 +380,25 @@ func hugeArray(in *bytesgen.Input) bool {
 		}
 	}
 	return false
+}
+
+// stackScope is the class of open finding C04-F36: the parser, the type checker
+// and the emitter recurse without bound on nested sources and the goroutine stack
+// overflows (fatal, not recoverable). safeNesting is the depth the generator stays
+// below while the finding is open (with the 64 MiB stacks of the workers every
+// construct overflows between 6 000 and 50 000 levels, see VALIDATION.md).
+const (
+	safeNesting = 4000
+	stackScope  = "nesting-depth>4000"
+)
+
+// inputNesting is the structural nesting measure of an input (maximum over its files).
+func inputNesting(in *bytesgen.Input) int {
+	n := 0
+	for _, f := range in.Files {
+		if d := bytesgen.NestingDepth(f.Data); d > n {
+			n = d
+		}
+	}
+	return n
 }
